@@ -17,7 +17,8 @@ from .core import Ctx, read_dump, write_ndjson, trace_verdict, MachineryError, N
 EXPRS = {"const": "42", "var": "x", "dotref": "a.b", "macro": "[1, 2].map(x, x + 1)", "has": "has(m.f)", "cond": 'x > 0 ? "p" : "n"',
          # programs built with / without application functions (a list: one overriding a built-in, one new name)
          "sizeplain": 'size("h\u00e9llo")', "sizeov": 'size("h\u00e9llo")', "twiceplain": "twice(21)", "twiceov": "twice(21)",
-         "tzplus": 'timestamp("2009-02-13T12:00:00Z").getHours("+02:00")', "tzminus": 'timestamp("2009-02-13T12:00:00Z").getHours("-02:00")'}
+         "tzplus": 'timestamp("2009-02-13T12:00:00Z").getHours("+02:00")', "tzminus": 'timestamp("2009-02-13T12:00:00Z").getHours("-02:00")',
+         "hasdiv": "has(m.f) ? 10 / m.f : -1"}
 WITH_FUNCTIONS = {"sizeov", "twiceov"}
 
 
@@ -29,13 +30,13 @@ def size(text):
 def twice(n):
     return ct.IntType(2 * n)
 DECLS = ["none", "dotted", "xint", "pkg"]
-BINDINGS = ["empty", "x1", "xneg", "ab7", "ab8x2", "mf", "amap", "amapab"]
+BINDINGS = ["empty", "x1", "xneg", "ab7", "ab8x2", "mf", "mf0", "amap", "amapab"]
 
 
 def binding(b):
     I, S, M = ct.IntType, ct.StringType, ct.MapType
     return {"empty": {}, "x1": {"x": I(1)}, "xneg": {"x": I(-5)}, "ab7": {"a.b": I(7)}, "ab8x2": {"a.b": I(8), "x": I(2)},
-            "mf": {"m": M({S("f"): I(1)})}, "amap": {"a": M({S("b"): I(9)})}, "amapab": {"a": M({S("b"): I(9)}), "a.b": I(7)}}[b]
+            "mf": {"m": M({S("f"): I(1)})}, "mf0": {"m": M({S("f"): I(0)})}, "amap": {"a": M({S("b"): I(9)})}, "amapab": {"a": M({S("b"): I(9)}), "a.b": I(7)}}[b]
 
 
 def new_env(r, d):
@@ -253,8 +254,8 @@ def run(ctx: Ctx) -> int:
         special = WITH_FUNCTIONS | {"tzplus", "tzminus"}
         cross = [h for j, h in enumerate(cross) if j % 9 == 0 or ((h[1][2] in special) != (h[3][2] in special) and j % 2 == 0)
                  or {h[1][2], h[3][2]} in ({"tzplus", "tzminus"}, {"sizeov", "sizeplain"}, {"twiceov", "twiceplain"})]
-    pairwise = [h if h[1][2] in ("const", "var", "dotref", "macro", "has", "cond") else h[:16] for h in pairwise
-                if h[1][2] in ("const", "var", "dotref", "macro", "has", "cond") or h[0][2] == "none"]
+    pairwise = [h if h[1][2] in ("const", "var", "dotref", "macro", "has", "cond", "hasdiv") else h[:16] for h in pairwise
+                if h[1][2] in ("const", "var", "dotref", "macro", "has", "cond", "hasdiv") or h[0][2] == "none"]
     # 3d. two programs of ONE environment built from one compiled syntax tree (same text), with and without application functions
     same_tree = [[["NewEnv", r1, "none"], ["Program", 1, e1, "shared"], ["Program", 1, e2, "shared"], ["Evaluate", 2, "x1"], ["Evaluate", 1, "x1"], ["Evaluate", 2, "empty"]]
                  for r1 in "IC" for e1, e2 in (("sizeplain", "sizeov"), ("sizeov", "sizeplain"), ("twiceplain", "twiceov"), ("twiceov", "twiceplain"), ("const", "const"))]
